@@ -145,7 +145,8 @@ def c11_7(facts, res, e, rule="C11-7"):
     # "the first declaration is binding" (XML 1.0 3.3): the collection the test looks at is the one the defaults are added to,
     # inside the loop over the definitions - a test that only sees the written attributes adds one default per definition
     st["instances"] += 1
-    searched = guards._root_local(quant.get("recv"))[1]
+    # every collection the quantifier ranges over: `specified.iter().chain(defaulted.iter()).any(..)` searches both
+    searched = {m.get("lid") for m in walk(quant.get("recv")) if m.get("k") == "Path" and m.get("res") == "Local"}
     grows = False
     for lp in walk(e["body"]):
         if lp.get("k") != "Loop":
@@ -154,7 +155,7 @@ def c11_7(facts, res, e, rule="C11-7"):
         if not any(m is quant for m in inside):
             continue
         for m in inside:
-            if m.get("k") == "MethodCall" and m["m"] in ("push", "insert", "push_back") and guards._root_local(m.get("recv"))[1] == searched and \
+            if m.get("k") == "MethodCall" and m["m"] in ("push", "insert", "push_back") and guards._root_local(m.get("recv"))[1] in searched and \
                     any(c.get("k") == "Call" and str(c["f"].get("path", "")).endswith("new_from_declaration") for c in walk(m.get("args", []))):
                 grows = True
     dedup = any(m.get("k") == "MethodCall" and m["m"] in ("dedup_by", "dedup_by_key", "retain") or
@@ -194,10 +195,12 @@ def expansion_roots(facts):
     return out
 
 
-def normalize_flags(facts, body, target, idx, depth=0, seen=None):
+def normalize_flags(facts, body, target, idx, depth=0, seen=None, env=None):
     """The argument expressions handed to parameter `idx` of `target` by every call reachable from `body` through functions of
-    the crate (bounded depth).  -> list of (argument node, calling function path)"""
+    the crate (bounded depth).  A parameter of an intermediate function that is handed on stands for the argument its caller
+    wrote (`attr_value(name, ctx, true)` -> `expand_entity(name, ctx, .., normalize)`).  -> list of (argument node, via)"""
     seen = seen if seen is not None else set()
+    env = env or {}
     out = []
     for m in walk(body):
         fid = None
@@ -210,12 +213,15 @@ def normalize_flags(facts, body, target, idx, depth=0, seen=None):
         if fid is None or fid not in facts.fns:
             continue
         g = facts.fns[fid]
+        args = [env.get(a.get("lid"), a) if isinstance(a, dict) and a.get("k") == "Path" and a.get("res") == "Local" else a for a in args]
         if g["id"] == target["id"]:
             if idx < len(args):
                 out.append((args[idx], None))
-        elif depth < 3 and g["crate"] == target["crate"] and "body" in g and fid not in seen and not g.get("derived"):
-            seen.add(fid)
-            for a, via in normalize_flags(facts, g["body"], target, idx, depth + 1, seen):
+        elif depth < 3 and g["crate"] == target["crate"] and "body" in g and (fid, depth) not in seen and not g.get("derived"):
+            seen.add((fid, depth))
+            sub = {p_.get("lid"): a for p_, a in zip(g.get("params", []), args) if p_.get("p") == "Bind" and isinstance(a, dict)
+                   and a.get("k") == "Lit"}
+            for a, via in normalize_flags(facts, g["body"], target, idx, depth + 1, seen, sub):
                 out.append((a, via or g["path"]))
     return out
 
